@@ -74,6 +74,9 @@ type Pkg struct {
 	// SrcAlias maps a package key to the alias the *source* file uses for it ("" = default name).
 	SrcAlias map[string]string `json:"src_alias,omitempty"`
 	Files    int               `json:"files,omitempty"` // number of source files (1 or 2)
+	// FuncLocal lists names of interface types declared inside a function body of the
+	// package (they may coincide with package-level interface names; never mockable).
+	FuncLocal []string `json:"func_local,omitempty"`
 }
 
 type Module struct {
